@@ -187,7 +187,7 @@ def r2(rep, prog):
         for b, t in calls_to(prog, wb, {IWN}):
             tr = trace_through(wb, op_local(t["args"][2]))
             acq = family(prog, D + "acquire_lock")
-            okk = any(s[0] == "call" and s[1] in acq for s in tr) and ("downcast", "Continue") in tr
+            okk = any(s[0] == "call" and s[1] in acq for s in tr) and (("downcast", "Continue") in tr or ("downcast", "Ok") in tr)
             rep.check(okk, R, "writer_with_options passes the freshly acquired lock", "new(.., lock <- Continue(acquire_lock(..)?))",
                       "the lock given to IndexWriter::new in writer_with_options does not come from the Ok value of acquire_lock", site=site(wb, b))
         for b, t in calls_to(prog, wb, family(prog, D + "acquire_lock")):
@@ -272,7 +272,8 @@ def r5(rep, prog):
     # the closure mapping the error: FileAlreadyExists -> FileExists
     tb = prog.body(fid)
     if tb is not None:
-        cl = [prog.body(r) for r in prog.body_refs(tb) if "{closure" in r]
+        # the mapping may be written in place (match), as a closure, or as a named function handed to map_err
+        cl = [tb] + [prog.body(r) for r in prog.body_refs(tb) if "{closure" in r or r.startswith("tantivy::directory::")]
         okm = False
         for c in cl:
             if c is None:
